@@ -98,6 +98,10 @@ type World struct {
 	Seq     atomic.Int64 // one event sequence for RPC records, TSO records and API-level history
 	TSOLog  []TSORecord
 
+	// BeforeRPC, when set, runs right before a request is handed to the store (used by oracles that
+	// drive reads in the synchronous phase and inject topology changes at chosen RPC indices)
+	BeforeRPC func(c *Client, req *tikvrpc.Request)
+
 	mu      sync.Mutex
 	RPCLog  []RPCRecord
 	crashed map[int]bool
@@ -334,6 +338,17 @@ func (s *seamRPC) SendRequest(ctx context.Context, addr string, req *tikvrpc.Req
 		return nil, errClosed
 	case DevHook:
 		d.Arg.(func())()
+	}
+	if h := s.c.W.BeforeRPC; h != nil {
+		h(s.c, req)
+	}
+	if debugSeam {
+		defer func() {
+			if p := recover(); p != nil {
+				fmt.Fprintf(os.Stderr, "SEAM store panicked (%v) on c%d %s: %v\n", p, s.c.ID, label, req.Req)
+				panic(p)
+			}
+		}()
 	}
 	resp, err := s.inner.SendRequest(ctx, addr, req, timeout)
 	rec.Resp, rec.Err = resp, err
